@@ -42,6 +42,9 @@ def run(ctx):
             h.viols.append(('total|%s|%s|empty-abbreviation' % (t, n), {}))
         if r['streamed'] is not None and r['streamed'] != r['abbr']:
             h.viols.append(('stream|%s|%s' % (t, n), {'streamed': r['streamed'], 'abbreviation': r['abbr']}))
+        if r.get('stream_state_difference'):
+            h.viols.append(('stream-state|%s|%s' % (t, n), {'abbreviation': r['abbr'], 'difference': r['stream_state_difference'],
+                                                            'what': 'streaming the enumerator differs from streaming its abbreviation when the stream has a field width / fill / adjustment'}))
         if r['parse_abbr'] != r['number']:
             h.viols.append(('parse-abbr|%s|%s' % (t, n),
                             {'abbreviation': r['abbr'], 'parsed_to_number': r['parse_abbr'], 'expected_number': r['number']}))
@@ -159,7 +162,7 @@ def run(ctx):
         deep = ('; and EVERY string up to the largest length L with |alphabet|^L <= %s over the bytes of the type\'s own spellings '
                 '(L per type in the notes), judged by a trie of the table keys' % budget)
     ev += h.stat('neg_strings')
-    rule = ('all enumerators of the %d enumeration types found by compile-time reflection over all int8 values; '
+    rule = ('all enumerators of the %d enumeration types found by compile-time reflection over all int8 values (abbreviation, streaming in five stream states, parse-back, conversion); '
             'every accepted spelling (= key of the spelling table) expanded by the independent symbol oracle; '
             'negative space = every string within edit distance 1 of an accepted spelling over the bytes occurring in '
             'the type\'s spellings plus NUL/0xff/space, case flips, and all strings up to length %s over that alphabet, '
